@@ -253,6 +253,10 @@ func tupleStrings(ts []Tuple) []string {
 func replayCore(run *Run) {
 	ctx := context.Background()
 	rf := LoadReplay(run.Replay)
+	if rf.Kind == "V2Check" {
+		replayC03(run) // weighted-graph answers are re-executed next to the default engine's
+		return
+	}
 	env := NewEnv(nil)
 	defer env.Close()
 	cs := &Case{Model: rf.Setup.Model, Tuples: rf.Setup.Tuples}
